@@ -43,3 +43,33 @@ Definition mg_common_value (lit : string -> outcome litres) (cfg : mconfig)
       | _ => do m <- merge_rec lit cfg rv nc lv; Ok (set_tag m (node_tag rv))
       end
   end.
+
+(* ---- UNIQUE, declaratively ---- *)
+(* "Only RHS Array elements not already in LHS Arrays are appended": the
+   right-hand elements that are new, in order.  [seen] holds what is already
+   there (for plain Arrays in the merger's tagless form: Nodes.tagless_elements
+   of the left Array, then the tagless form of every appended element); an
+   element equal (Python ==) to one of them is not new. *)
+Fixpoint mg_new_tagless (seen : list node) (rels : list node) : list node :=
+  match rels with
+  | [] => []
+  | e :: r => if in_list (tagless e) seen then mg_new_tagless seen r
+              else e :: mg_new_tagless (seen ++ [tagless e]) r
+  end.
+
+(* Arrays-of-Hashes: "RHS Hashes which do not already exist IN FULL within LHS":
+   compared as they are (Python == on the records), against everything present *)
+Fixpoint mg_new_full (present : list node) (rels : list node) : list node :=
+  match rels with
+  | [] => []
+  | e :: r => if in_list e present then mg_new_full present r
+              else e :: mg_new_full (present ++ [e]) r
+  end.
+
+(* a plain Array element under UNIQUE: it stays, or is replaced -- possibly
+   several times -- by a right-hand element that matches it under the merger's
+   comparison (the code rebuilds the Array with the right-hand object) *)
+Inductive mg_chain (rels : list node) : node -> node -> Prop :=
+  | mg_chain_refl : forall e, mg_chain rels e e
+  | mg_chain_step : forall e e' e'', mg_chain rels e e' -> In e'' rels ->
+                      elem_matches e' (tagless e'') = true -> mg_chain rels e e''.
